@@ -100,7 +100,7 @@ def reduced_stepwise(mfl_funcs, iiv_strategy: str, allometry=None):
         no_of_trans = 0
         actions = _get_possible_actions(wb_search, mfl_funcs)
         groups = _find_same_model_groups(wb_search, mfl_funcs)
-        if len(groups) > 1:
+        if groups:
             for group in groups:
                 # Only add collector nodes to tasks with possible actions (i.e. not to leaf nodes)
                 if all(len(actions[task]) > 0 for task in group):
